@@ -67,6 +67,8 @@ type Scenario struct {
 	// components shows when the bubble starts.
 	BaseUnixNS int64   `json:"base_unix_ns"`
 	Tracks     []Track `json:"tracks"`
+	// Conc (mode conc, see conc.go): concurrent callers of one Receiver.
+	Conc *Conc `json:"conc,omitempty"`
 }
 
 const (
@@ -398,6 +400,11 @@ func genTrack(r *core.Rand) Track {
 }
 
 func gen(seed uint64, tier string) Scenario {
+	// a tenth of the runs: concurrent callers of one Receiver (hash-derived so that no other
+	// choice moves)
+	if core.HS(seed, "c15.conc", "", 0)%100 < 10 {
+		return genConc(seed)
+	}
 	r := core.NewRand(seed, "c15")
 	sc := Scenario{Seed: seed}
 	nt := 1
@@ -1038,6 +1045,9 @@ var probeNames = []string{
 }
 
 func run(t *testing.T, sc Scenario) *core.Result {
+	if sc.Conc != nil {
+		return runConc(t, sc)
+	}
 	res := core.NewResult()
 	for _, p := range probeNames {
 		res.Probes[p] = 0
@@ -1121,6 +1131,24 @@ func clone(sc Scenario) Scenario {
 }
 
 func shrink(sc Scenario) []Scenario {
+	if sc.Conc != nil {
+		var out []Scenario
+		if sc.Conc.Reports > 2 {
+			c := sc
+			cc := *sc.Conc
+			cc.Reports = 2
+			c.Conc = &cc
+			out = append(out, c)
+		}
+		if sc.Conc.Queries > 10 {
+			c := sc
+			cc := *sc.Conc
+			cc.Queries /= 2
+			c.Conc = &cc
+			out = append(out, c)
+		}
+		return out
+	}
 	var out []Scenario
 	add := func(c Scenario) {
 		if validate(&c) == nil {
